@@ -90,3 +90,127 @@ Proof.
   rewrite (Hp rho es' Hinj HP). unfold C20_ok_strict, C20_ok. rewrite registry_eqb_refl, Hc, Hk. split; [reflexivity|].
   intros _ He. rewrite (Hce He). reflexivity.
 Qed.
+
+(* ================================================================ closedness of the whole pipeline *)
+(* "Local types are followed": the edge(field, type) rule puts the type of every reached field among
+   the edge targets, the field/variant/leaf rules then make it the source of an edge, and the
+   Formatter gives every such source a container.  Hence the registry [pipeline] returns is closed
+   (up to Request -> Effect) as soon as every type name a field's format uses is the name() of a local
+   struct/enum the field points to - with a variant if it is an enum - or is the Range of a direct
+   Range field.  What the hypothesis excludes is exactly the known classes: remote types whose crate
+   does not reach them, renamed types, variant-less enums, nested Range. *)
+Definition tbl_fun (tbl : list item) : Prop :=
+  forall x y, In x tbl -> In y tbl -> it_id x = it_id y -> x = y.
+
+Definition productive (d : dump) (t : item) : Prop :=
+  is_struct t = true
+  \/ (is_enum_item t = true /\ exists v, In (t, v) (d_variant d) /\ In v (d_items d) /\ has_variant t v = true).
+
+(* for every REACHED field and every type name its format uses: it is the Range of a direct Range field,
+   or the name of a local type the field points to, or (remote-crate hypothesis) the name of a root of
+   one of the crates visited - e.g. the operation type a dependency declares *)
+Definition followed (d : dump) (G : list (gid * gid)) : Prop :=
+  forall f s, In f (d_items d) -> (exists a, In (a, it_id f) G) -> In s (names_of_item f) ->
+    (s = "Range" /\ exists c, it_range f = Some c)
+    \/ (exists t, In t (d_items d) /\ In (f, t) (d_type d) /\ it_name t = Some s /\ productive d t)
+    \/ (exists t, In t (d_items d) /\ In t (d_root d) /\ it_name t = Some s /\ productive d t).
+
+Definition fields_in_table (d : dump) : Prop :=
+  forall e, In e (d_field d) -> In (fst e) (d_items d) /\ In (snd e) (d_items d).
+
+Lemma get_in tbl x : tbl_fun tbl -> In x tbl -> get tbl (it_id x) = x.
+Proof.
+  intros Hf Hx. unfold get. destruct (find (fun y => gid_eqb (it_id y) (it_id x)) tbl) as [y|] eqn:E.
+  - apply find_some in E as [Hy He]. destruct (gid_eqb_spec (it_id y) (it_id x)); [|discriminate]. apply Hf; assumption.
+  - pose proof (find_none _ _ E x Hx) as H. cbn in H. destruct (gid_eqb_spec (it_id x) (it_id x)); congruence.
+Qed.
+
+Lemma get_named tbl g s : In s (names_of_item (get tbl g)) -> In (get tbl g) tbl /\ it_id (get tbl g) = g.
+Proof.
+  unfold get. destruct (find (fun y => gid_eqb (it_id y) g) tbl) as [y|] eqn:E.
+  - intros _. apply find_some in E as [Hy He]. destruct (gid_eqb_spec (it_id y) g); [auto | discriminate].
+  - cbn. intros [].
+Qed.
+
+Lemma container_of_struct t es s : it_name t = Some s -> is_struct t = true -> exists c, In (s, c) (container_of t es).
+Proof.
+  intros Hn Hs. unfold container_of. rewrite Hn. unfold is_struct in Hs.
+  destruct (it_kind t); try discriminate; eexists; left; reflexivity.
+Qed.
+
+Lemma edges_of_In tbl G a b : In (a, b) G -> In (get tbl a, get tbl b) (edges_of tbl G).
+Proof. intros H. unfold edges_of. apply in_map_iff. exists (a, b). split; [reflexivity | exact H]. Qed.
+
+(* a productive type that is a root or the target of an edge is the source of an edge, hence defined *)
+Lemma source_defined d fuel G t s :
+  tbl_fun (d_items d) -> fields_in_table d ->
+  closure gid_eqb fuel (gfacts d) [] = Some G ->
+  In t (d_items d) -> it_name t = Some s -> productive d t ->
+  (In t (d_root d) \/ exists b, In (b, it_id t) G) ->
+  defines (edges_of (d_items d) G) s.
+Proof.
+  intros Htbl Hfld Hc Htin Hname Hprod Hreach.
+  set (es := edges_of (d_items d) G).
+  assert (Hspec := closure_spec gid_eqb gid_eqb_spec _ _ _ _ Hc).
+  assert (Hroot : In t (d_root d) -> In (it_id t) (f_root (gfacts d))) by (intros H; cbn [gfacts f_root]; apply in_map; exact H).
+  destruct Hprod as [Hst | [Hen [v [Hv [Hvin Hhv]]]]].
+  - destruct (existsb (fun e => same_item (fst e) t) (d_field d)) eqn:Ex.
+    + apply existsb_exists in Ex as [[t' c] [Hin Hsame]]. cbn [fst] in Hsame.
+      destruct (Hfld _ Hin) as [Ht' Hcin]. cbn [fst snd] in Ht', Hcin.
+      assert (t' = t) by (apply Htbl; try assumption; apply same_item_iff; exact Hsame). subst t'.
+      assert (Hf : In (it_id t, it_id c) (f_field (gfacts d)))
+        by (cbn [gfacts f_field]; apply in_map_iff; exists (t, c); split; [reflexivity | exact Hin]).
+      assert (Htc : In (it_id t, it_id c) G).
+      { apply Hspec. destruct Hreach as [Hr | [b Hb]].
+        - apply d_root_field; [apply Hroot; exact Hr | exact Hf].
+        - eapply d_step; [apply Hspec; exact Hb|]. unfold all_rels. apply in_or_app. left. exact Hf. }
+      destruct (container_of_struct t es s Hname Hst) as [k Hk]. exists k.
+      unfold derived_containers. apply in_or_app. left. apply in_flat_map.
+      exists (get (d_items d) (it_id t), get (d_items d) (it_id c)). split; [apply edges_of_In; exact Htc|].
+      cbn [fst]. rewrite (get_in _ _ Htbl Htin). exact Hk.
+    + assert (Hl : In (it_id t) (f_leaf (gfacts d))).
+      { cbn [gfacts f_leaf]. apply in_map. apply filter_In. split; [exact Htin|]. unfold is_leaf. rewrite Hst, Ex. reflexivity. }
+      assert (Htt : In (it_id t, it_id t) G).
+      { apply Hspec. destruct Hreach as [Hr | [b Hb]].
+        - apply d_leaf_root; [apply Hroot; exact Hr | exact Hl].
+        - eapply d_leaf; [apply Hspec; exact Hb | exact Hl]. }
+      destruct (container_of_struct t es s Hname Hst) as [k Hk]. exists k.
+      unfold derived_containers. apply in_or_app. left. apply in_flat_map.
+      exists (get (d_items d) (it_id t), get (d_items d) (it_id t)). split; [apply edges_of_In; exact Htt|].
+      cbn [fst]. rewrite (get_in _ _ Htbl Htin). exact Hk.
+  - assert (Hf : In (it_id t, it_id v) (f_variant (gfacts d)))
+      by (cbn [gfacts f_variant]; apply in_map_iff; exists (t, v); split; [reflexivity | exact Hv]).
+    assert (Htv : In (it_id t, it_id v) G).
+    { apply Hspec. destruct Hreach as [Hr | [b Hb]].
+      - apply d_root_variant; [apply Hroot; exact Hr | exact Hf].
+      - eapply d_step; [apply Hspec; exact Hb|]. unfold all_rels. apply in_or_app. right. apply in_or_app. left. exact Hf. }
+    assert (Hedge : In (t, v) es).
+    { pose proof (edges_of_In (d_items d) _ _ _ Htv) as H. rewrite (get_in _ _ Htbl Htin), (get_in _ _ Htbl Hvin) in H. exact H. }
+    assert (Hch : In v (children has_variant t es)).
+    { apply children_In. exists (t, v). cbn [fst snd]. repeat split; try assumption. apply same_item_iff. reflexivity. }
+    unfold is_enum_item in Hen. exists (CEnum (enum_entries 0 (variants t es) es)).
+    unfold derived_containers. apply in_or_app. left. apply in_flat_map. exists (t, v). split; [exact Hedge|].
+    cbn [fst]. unfold container_of. rewrite Hname. destruct (it_kind t); try discriminate.
+    destruct (children has_variant t es); [contradiction|]. left. reflexivity.
+Qed.
+
+Theorem pipeline_closed d fuel G :
+  tbl_fun (d_items d) -> fields_in_table d ->
+  closure gid_eqb fuel (gfacts d) [] = Some G -> followed d G ->
+  closed_mod_requestb (format (edges_of (d_items d) G)) = true.
+Proof.
+  intros Htbl Hfld Hc Hfol. apply format_closed.
+  assert (Hspec := closure_spec gid_eqb gid_eqb_spec _ _ _ _ Hc).
+  intros e He Hhf s Hs.
+  unfold edges_of in He. apply in_map_iff in He as [[a b] [Ee Hab]]. subst e. cbn [fst snd] in *.
+  destruct (get_named _ _ _ Hs) as [Hfin Hfid].
+  assert (Hreach : exists a0, In (a0, it_id (get (d_items d) b)) G) by (exists a; rewrite Hfid; exact Hab).
+  destruct (Hfol _ _ Hfin Hreach Hs) as [[Hr [c Hrc]] | [[t [Htin [Hty [Hname Hprod]]]] | [t [Htin [Hrt [Hname Hprod]]]]]].
+  - subst s. exists c. unfold derived_containers. apply in_or_app. right. unfold range_containers.
+    apply filter_map_In. exists (get (d_items d) a, get (d_items d) b). split; [apply edges_of_In; exact Hab|].
+    cbn [fst snd]. rewrite Hhf, Hrc. reflexivity.
+  - eapply source_defined; try eassumption. right. exists b.
+    apply Hspec. eapply d_step; [apply Hspec; exact Hab|]. unfold all_rels. apply in_or_app. right. apply in_or_app. right.
+    cbn [gfacts f_type]. apply in_map_iff. exists (get (d_items d) b, t). split; [|exact Hty]. unfold gpair. cbn [fst snd]. rewrite Hfid. reflexivity.
+  - eapply source_defined; try eassumption. left. exact Hrt.
+Qed.
